@@ -10,6 +10,11 @@ open RV.C14
 #print axioms refine_equivariant
 #print axioms canon_iso_partial
 #print axioms canon_sound_partial
+#print axioms canonSearch_equivariant
+#print axioms canonSearch_complete
+#print axioms canonSearch_sound
+#print axioms canonSearch_decides
+#print axioms driverHashes_perm_invariant
 #print axioms skolem_roundtrip_partial
 #print axioms deskolemize_one_map
 #print axioms skolem_roundtrip_stateful_partial
